@@ -18,6 +18,8 @@ def check(model: Model, run: Run) -> None:
                        "and implicit KeyError forks alike), E2 refusals raised inside _session.py are LDAPError, E3 every server "
                        "response is queued under a live fact that its id is outstanding, E4 a final response retires the id")
     common_coverage(ex, run)
+    from .c07 import exit_does_not_swallow
+    exit_does_not_swallow(model, run)
     construction_does_not_refuse(model, run, ex)
     refusal_text_is_total(model, run, ex)
     n_e3 = 0
